@@ -29,6 +29,7 @@ import (
 	"context"
 	"errors"
 	"fmt"
+	"maps"
 	"math"
 	"slices"
 	"sort"
@@ -662,8 +663,9 @@ func (r *resolution) state() *state {
 func (r *resolution) pushNewState() {
 	base := r.state()
 	s := &state{
-		mapping:  base.mapping.Clone(),
-		criteria: base.criteria.Copy(),
+		mapping:      base.mapping.Clone(),
+		criteria:     base.criteria.Copy(),
+		pinnedExtras: maps.Clone(base.pinnedExtras),
 	}
 
 	r.states = append(r.states, s)
@@ -715,6 +717,16 @@ func (r *resolution) isCurrentPinSatisfying(ctx context.Context, name resolve.Pa
 	// the graph and scan through them. Instead, as long as the criterion's
 	// candidates are correct, it is sufficient to just check the current
 	// pin is listed as a candidate.
+	// A requirement seen after the package was pinned may ask for an extra
+	// the pin's dependencies were not gathered with; the package has to be
+	// pinned again so that those dependencies are taken into account (in
+	// pip the package with extras is a candidate of its own).
+	pinned := r.state().pinnedExtras[name]
+	for e, on := range crit.extras {
+		if on && !pinned[e] {
+			return false
+		}
+	}
 	for _, c := range crit.candidates {
 		if c == currentPin {
 			return true
@@ -791,6 +803,7 @@ func (r *resolution) attemptToPinCriterion(ctx context.Context, name resolve.Pac
 		// the next popped off mapping. We do not, because our
 		// versionMap updates the insertion order for every Set call.
 		s.mapping.Set(name, candidate)
+		s.pinnedExtras[name] = crit.extras
 		// Add criteria for the dependencies.
 		for n, c := range criteria {
 			s.criteria.Put(n, c)
@@ -908,8 +921,9 @@ func (r *resolution) resolve(ctx context.Context, reqs []resolve.RequirementVers
 
 	// Initialize the state.
 	r.states = []*state{{
-		mapping:  newVersionMap(0),
-		criteria: newCriteria(),
+		mapping:      newVersionMap(0),
+		criteria:     newCriteria(),
+		pinnedExtras: make(map[resolve.PackageKey]map[string]bool),
 	}}
 	state := r.state()
 	// Build the initial criteria.
@@ -1014,6 +1028,10 @@ type state struct {
 	// criteria holds criterion objects which capture requirements to be satisfied
 	// and matching versions.
 	criteria *criteria
+	// pinnedExtras holds, for every pinned package, the extras its
+	// dependencies were gathered with when it was pinned. The inner maps
+	// are never modified.
+	pinnedExtras map[resolve.PackageKey]map[string]bool
 }
 
 // criterion represents possible resolution results of a package. This maps to
